@@ -31,6 +31,11 @@
 (*                                c.Resp.WriteHeader(code) that also runs  *)
 (*                                while a panic unwinds (handlers.Timeout  *)
 (*                                after its deadline)                      *)
+(*   <<"subrouter", chain2>>      rux.WrapHTTPHandler(api)(c) where api is   *)
+(*                                ANOTHER router whose chain for the request *)
+(*                                is chain2: a complete nested dispatch on a *)
+(*                                fresh context of api, whose underlying     *)
+(*                                writer is the lazy writer of this context  *)
 (*   <<"lib", name>>              a middleware of pkg/handlers called in   *)
 (*                                place; LibOps gives its meaning in the   *)
 (*                                ops above (ExpandChain), the harness     *)
@@ -76,6 +81,14 @@ ApplyW(w, op) == CASE op[1] = "status"      -> WHeader(w, op[2])
                    [] op[1] = "flush"       -> WFlush(w)
                    [] op[1] = "httpError"   -> WError(w, op[2], op[3])
                    [] OTHER                 -> w
+
+\* the calls a lazy writer passed to the writer below it, read as ops on that writer (full writes only)
+UnderAsOps(u) == [i \in 1..Len(u) |-> CASE u[i][1] = "WH" -> <<"status", u[i][2]>>
+                                         [] u[i][1] = "W"  -> <<"write", u[i][2], "full">>
+                                         [] u[i][1] = "FL" -> <<"flush">>]
+RECURSIVE ApplySeqFrom(_, _, _)
+ApplySeqFrom(w, ops, i) == IF i > Len(ops) THEN w ELSE ApplySeqFrom(ApplyW(w, ops[i]), ops, i + 1)
+ApplySeq(w, ops) == ApplySeqFrom(w, ops, 1)
 
 (* C08, declarative: computed from the sequence of writer ops the handlers executed, not from the writer *)
 Commits(op)   == op[1] \in {"write", "flush", "httpError", "commit"}      \* "commit": the end-of-dispatch commit of a nested dispatch
@@ -137,6 +150,16 @@ IRunHandler(chain, st, h, pc) ==
               LET r  == IRunNext(chain, st)
                   r2 == [r EXCEPT !.w = WHeader(@, op[2]), !.wops = Append(@, <<"status", op[2]>>)] IN
               IF r.pan THEN r2 ELSE IRunHandler(chain, r2, h, pc + 1)
+         [] op[1] = "subrouter" ->
+              \* the mounted router has its own context (cursor, abort mark, errors) and its own lazy writer on top of ours:
+              \* what its writer passes down arrives at our writer as WriteHeader / Write / Flush calls
+              LET sub  == IRunNext(op[2], [St0 EXCEPT !.log = <<>>])
+                  subw == IF sub.pan THEN sub.w ELSE WEnsure(sub.w)                   \* its end-of-dispatch commit
+                  ops2 == UnderAsOps(subw.under)
+                  lg   == st.log \o [i \in 1..Len(sub.log) |-> <<sub.log[i][1], 100 + sub.log[i][2], sub.log[i][3]>>]
+                  st2  == [st EXCEPT !.log = lg, !.w = ApplySeq(@, ops2), !.wops = @ \o ops2]
+              IN IF sub.pan THEN [st2 EXCEPT !.pan = TRUE]          \* (no hook on the mounted router: its panic travels up through us)
+                 ELSE IRunHandler(chain, st2, h, pc + 1)
          [] op[1] = "abort" -> IRunHandler(chain, [st EXCEPT !.ab = TRUE], h, pc + 1)
          [] op[1] = "abortStatus" -> IRunHandler(chain, [st EXCEPT !.ab = TRUE, !.w = ApplyW(@, op), !.wops = Append(@, op)], h, pc + 1)
          [] op[1] = "err"   -> IRunHandler(chain, [st EXCEPT !.errs = @ + 1], h, pc + 1)
